@@ -498,6 +498,10 @@ class DAGRunConcurrentManager(DAGRunManagerLike):
                 # We must unlock descendants because the next OneOf subgraph should start the process.
                 # Otherwise, the entire subgraph will be locked.
                 await self.__unlock_descendants(node_id)
+
+                # The OneOf runner waits on the condition of the subgraph's destination node, which is not
+                # necessarily a first-line descendant of the current node.
+                await self.__unlock_itself(dag.dest)
                 return None
 
             if self._is_switch(node_id):
